@@ -1,15 +1,62 @@
 (* C15 — shell.Quote/Join protect every string; Split inverts Join.
-   Only statements, each closed by [exact] of a lemma proved elsewhere. *)
+   Only statements, each closed by [exact] of a lemma proved elsewhere
+   (Shell/ShellProofs.v over the generated transducer table; Shell/ShellProofsPosix.v over the
+   generated quoting sets mustQuote/shouldQuote/spaces/allQuote of Gen/ShellTable.v). *)
 From Coq Require Import NArith List.
 Import ListNotations.
-From Mds Require Import Shell.ShellModel Shell.ShellProofs.
+From Mds Require Import Shell.ShellModel Shell.ShellSpec Shell.ShellProofs Shell.ShellProofsPosix.
+Local Open Scope N_scope.
 
 (* Split(Join(ss)) = (ss, true) for every list of byte strings; no panic (Some). *)
-Theorem C15_split_join : forall ss : list bytes, split (join ss) = Some (ss, true).
+Theorem C15_split_join : forall ss : list (list N), split (join ss) = Some (ss, true).
 Proof. exact split_join. Qed.
 Print Assumptions C15_split_join.
 
+(* [ <empty> ; it<sq>s ; a<space>b;c ] *)
+Example C15_split_join_ex :
+  join [[]; [105; 116; 39; 115]; [97; 32; 98; 59; 99]]
+  = [39; 39; 32; 105; 116; 92; 39; 115; 32; 39; 97; 32; 98; 59; 99; 39]
+  /\ split (join [[]; [105; 116; 39; 115]; [97; 32; 98; 59; 99]])
+     = Some ([[]; [105; 116; 39; 115]; [97; 32; 98; 59; 99]], true).
+Proof. vm_compute. auto. Qed.
+
 (* Split(Quote(s)) = ([s], true) for every byte string. *)
-Theorem C15_split_quote : forall s : bytes, split (quote s) = Some ([s], true).
+Theorem C15_split_quote : forall s : list N, split (quote s) = Some ([s], true).
 Proof. exact split_quote. Qed.
 Print Assumptions C15_split_quote.
+
+Example C15_split_quote_ex :   (* a;<sq>~  ->  <sq>a;<sq><backslash><sq><sq>~<sq> *)
+  quote [97; 59; 39; 126] = [39; 97; 59; 39; 92; 39; 39; 126; 39]
+  /\ split (quote [97; 59; 39; 126]) = Some ([[97; 59; 39; 126]], true).
+Proof. vm_compute. auto. Qed.
+
+(* A POSIX shell evaluating Quote(s) as a command fragment obtains exactly the one word s and
+   meets no unquoted character with a special meaning: [posix_words] is the transcription of
+   XCU 2.2 (special set written from the standard: | & ; < > ( ) $ ` backslash dq sq space tab
+   newline * ? [ # ~ = %; inside double quotes $ and ` stay special; an unquoted special or an
+   open quote gives None).  The property text restricts s to NUL-free strings because a real
+   shell cannot carry NUL in a word; the transcription has no such limit and the statement is
+   proved for EVERY byte string, which includes the NUL-free ones. *)
+Theorem C15_posix : forall s : list N, posix_words (quote s) = Some [s].
+Proof. exact quote_posix. Qed.
+Print Assumptions C15_posix.
+
+Example C15_posix_ex :
+  posix_words (quote [97; 59; 39; 126]) = Some [[97; 59; 39; 126]]
+  /\ posix_words [97; 59; 98] = None            (* a;b unquoted: rejected *)
+  /\ posix_words [126; 120] = None              (* ~x unquoted: rejected *)
+  /\ posix_words [34; 36; 120; 34] = None.      (* $ inside double quotes: rejected *)
+Proof. vm_compute. auto. Qed.
+
+(* The Join analogue, for every list of byte strings (the empty list gives the empty text, an
+   empty string is written as two single quotes): a POSIX shell reads Join(ss) as exactly the
+   words ss. *)
+Theorem C15_posix_join : forall ss : list (list N), posix_words (join ss) = Some ss.
+Proof. exact join_posix. Qed.
+Print Assumptions C15_posix_join.
+
+Example C15_posix_join_ex :
+  posix_words (join [[]; [105; 116; 39; 115]; [97; 32; 98; 59; 99]])
+  = Some [[]; [105; 116; 39; 115]; [97; 32; 98; 59; 99]]
+  /\ posix_words (join []) = Some [].
+Proof. vm_compute. auto. Qed.
